@@ -72,9 +72,9 @@ Proof. intros n m v Hle. induction Hle as [|m Hle IH]; intros H; [exact H|]. app
 
 Lemma list_max_lt : forall l n, 0 < n -> (list_max l < n <-> Forall (fun k => k < n) l).
 Proof.
-  intros l n Hn. induction l as [|a l IH]; simpl.
-  - split; [constructor|intros _; exact Hn].
-  - split.
+  intros l n Hn. induction l as [|a l IH].
+  - simpl. split; [constructor|intros _; exact Hn].
+  - change (list_max (a :: l)) with (Nat.max a (list_max l)). split.
     + intros H. constructor; [lia|]. apply IH. lia.
     + intros H. inversion H as [|x y Ha Hl]; subst. apply IH in Hl. lia.
 Qed.
@@ -83,29 +83,23 @@ Theorem ref_free_at_of_ref_free : forall v n, ref_free v = true -> vdepth v < n 
 Proof.
   intro v. induction v as [l IH|l IH|l IH|v Hv] using value_ind_nested; intros n Hr Hd.
   - destruct n as [|n]; [lia|]. cbn [ref_free_at]. cbn [ref_free] in Hr. cbn [vdepth] in Hd.
-    assert (Hd' : list_max (map vdepth l) < S n) by lia. clear Hd.
-    destruct n as [|n].
-    { destruct l as [|x t]; [reflexivity|]. exfalso. simpl in Hd'. lia. }
-    assert (Hd : list_max (map vdepth l) < S n) by lia. clear Hd'.
-    apply list_max_lt in Hd; [|lia]. rewrite Forall_map in Hd.
-    apply forallb_forall. intros x Hx. rewrite Forall_forall in IH, Hd. rewrite forallb_forall in Hr.
-    apply IH; auto.
-  - destruct n as [|n]; [lia|]. cbn [ref_free_at]. cbn [ref_free] in Hr. cbn [vdepth] in Hd.
-    destruct n as [|n].
-    { destruct l as [|x t]; [reflexivity|]. exfalso. simpl in Hd. lia. }
-    assert (Hd' : list_max (map vdepth l) < S n) by lia. clear Hd.
-    apply list_max_lt in Hd'; [|lia]. rewrite Forall_map in Hd'.
+    assert (Hd' : list_max (map vdepth l) < n) by lia. assert (Hn : 0 < n) by lia. clear Hd.
+    apply (list_max_lt _ _ Hn) in Hd'. rewrite Forall_map in Hd'.
     apply forallb_forall. intros x Hx. rewrite Forall_forall in IH, Hd'. rewrite forallb_forall in Hr.
     apply IH; auto.
   - destruct n as [|n]; [lia|]. cbn [ref_free_at]. cbn [ref_free] in Hr. cbn [vdepth] in Hd.
-    destruct n as [|n].
-    { destruct l as [|x t]; [reflexivity|]. exfalso. simpl in Hd. lia. }
-    assert (Hd' : list_max (map (fun kv => Nat.max (vdepth (fst kv)) (vdepth (snd kv))) l) < S n) by lia. clear Hd.
-    apply list_max_lt in Hd'; [|lia]. rewrite Forall_map in Hd'.
+    assert (Hd' : list_max (map vdepth l) < n) by lia. assert (Hn : 0 < n) by lia. clear Hd.
+    apply (list_max_lt _ _ Hn) in Hd'. rewrite Forall_map in Hd'.
+    apply forallb_forall. intros x Hx. rewrite Forall_forall in IH, Hd'. rewrite forallb_forall in Hr.
+    apply IH; auto.
+  - destruct n as [|n]; [lia|]. cbn [ref_free_at]. cbn [ref_free] in Hr. cbn [vdepth] in Hd.
+    assert (Hd' : list_max (map (fun kv => Nat.max (vdepth (fst kv)) (vdepth (snd kv))) l) < n) by lia.
+    assert (Hn : 0 < n) by lia. clear Hd.
+    apply (list_max_lt _ _ Hn) in Hd'. rewrite Forall_map in Hd'.
     apply forallb_forall. intros [k x] Hx. rewrite Forall_forall in IH, Hd'. rewrite forallb_forall in Hr.
     pose proof (IH _ Hx) as [I1 I2]. pose proof (Hd' _ Hx) as D. pose proof (Hr _ Hx) as R.
     cbn [fst snd] in *. apply andb_true_iff in R. destruct R as [R1 R2].
-    rewrite (I1 (S n) R1), (I2 (S n) R2) by lia. reflexivity.
+    rewrite (I1 n R1), (I2 n R2) by lia. reflexivity.
   - destruct n as [|n]; [lia|]. destruct v; try contradiction; try discriminate; reflexivity.
 Qed.
 
@@ -198,3 +192,1074 @@ Proof.
   - apply C07_oper_update_get.
   - apply C07_oper_update_other. destruct (ckey_eqb_spec k (scope_str (current_scope s), sel)); [contradiction|reflexivity].
 Qed.
+
+(* ================================================================== *)
+(* (A2) sections change only for the calls that were ENTERED            *)
+(* ================================================================== *)
+(* The chronological list of the (scope, selector) pairs of the wrapper invocations that got past the wrapper's
+   entry checks (configurable known, no stray REQUIRED) during an evaluation: computed alongside the original
+   functions (the states come from the original eval / go_kw / call_handle, nothing is re-implemented). *)
+Definition keyer := state -> value -> list ckey.
+
+Definition keys_list (ev : evaluator) (evk : keyer) :=
+  fix go (s : state) (l : list value) : list ckey :=
+    match l with
+    | [] => []
+    | x :: t => evk s x ++ (let '(s1, rx) := ev s x in match rx with Ok _ => go s1 t | Raise _ => [] end)
+    end.
+Definition keys_dict (ev : evaluator) (evk : keyer) :=
+  fix go (s : state) (l : list (value * value)) : list ckey :=
+    match l with
+    | [] => []
+    | (k, x) :: t =>
+        evk s k ++ (let '(s0, rk) := ev s k in
+                    match rk with
+                    | Raise _ => []
+                    | Ok _ => evk s0 x ++ (let '(s1, rx) := ev s0 x in
+                                           match rx with Ok _ => go s1 t | Raise _ => [] end)
+                    end)
+    end.
+Definition keys_kw (ev : evaluator) (evk : keyer) :=
+  fix go (s : state) (l : pdict) : list ckey :=
+    match l with
+    | [] => []
+    | (_, x) :: t => evk s x ++ (let '(s1, rx) := ev s x in match rx with Ok _ => go s1 t | Raise _ => [] end)
+    end.
+Definition keys_tail (chk : state -> list string -> string -> list ckey)
+           (c : cfgable) (sstr : string) (args : list value) (kwargs : pdict) (s : state) (rk : res pdict) : list ckey :=
+  match rk with
+  | Raise _ => []
+  | Ok nk =>
+      match merge_call c args kwargs nk with
+      | Raise _ => []
+      | Ok (new_args, final_kwargs) =>
+          match py_bind (c_sig c) new_args final_kwargs with
+          | None => []
+          | Some env =>
+              match c_kind c with
+              | KSingleton =>
+                  match sget sstr (singletons s) with
+                  | Some _ => []
+                  | None => match sget "constructor" env with
+                            | Some (VHandle hsc hsel) => chk s hsc hsel
+                            | _ => []
+                            end
+                  end
+              | _ => []
+              end
+          end
+      end
+  end.
+
+Fixpoint eval_keys (fuel : nat) (s : state) (v : value) {struct fuel} : list ckey :=
+  match fuel with
+  | O => []
+  | S f =>
+      match v with
+      | VList l | VTuple l => keys_list (eval f) (eval_keys f) s l
+      | VDict l => keys_dict (eval f) (eval_keys f) s l
+      | VRef sc sel true => ch_keys f s sc sel [] []
+      | _ => []
+      end
+  end
+with ch_keys (fuel : nat) (s : state) (sc : list string) (sel : string) (args : list value) (kwargs : pdict)
+             {struct fuel} : list ckey :=
+  match fuel with
+  | O => []
+  | S f =>
+      match sc with
+      | [] => call_keys f s sel args kwargs
+      | _ => if negb (scope_valid sc) then [] else call_keys f (set_scopes (sc :: scopes s) s) sel args kwargs
+      end
+  end
+with call_keys (fuel : nat) (s : state) (sel : string) (args : list value) (kwargs : pdict)
+               {struct fuel} : list ckey :=
+  match fuel with
+  | O => []
+  | S f =>
+      match lookup_sel s sel with
+      | None => []
+      | Some c =>
+          if existsb is_req (skipn (List.length (supplied_positional_names (c_sig c) args)) args) then [] else
+          let nk := prep_bindings (config s) (current_scope s) c args kwargs in
+          let s0 := oper_update s (scope_str (current_scope s), sel) (prep_operative c args kwargs nk) in
+          (scope_str (current_scope s), sel) ::
+            keys_kw (eval f) (eval_keys f) s0 nk ++
+            (let '(s1, rk) := go_kw (eval f) s0 nk in
+             keys_tail (fun st hsc hsel => ch_keys f st hsc hsel [] []) c (scope_str (current_scope s)) args kwargs s1 rk)
+      end
+  end.
+
+(* ---- unfolding equations ---- *)
+Lemma keys_list_cons : forall ev evk s x t, keys_list ev evk s (x :: t) =
+  evk s x ++ (let '(s1, rx) := ev s x in match rx with Ok _ => keys_list ev evk s1 t | Raise _ => [] end).
+Proof. reflexivity. Qed.
+Lemma keys_dict_cons : forall ev evk s k x t, keys_dict ev evk s ((k, x) :: t) =
+  evk s k ++ (let '(s0, rk) := ev s k in
+              match rk with
+              | Raise _ => []
+              | Ok _ => evk s0 x ++ (let '(s1, rx) := ev s0 x in
+                                     match rx with Ok _ => keys_dict ev evk s1 t | Raise _ => [] end)
+              end).
+Proof. reflexivity. Qed.
+Lemma keys_kw_cons : forall ev evk s k x t, keys_kw ev evk s ((k, x) :: t) =
+  evk s x ++ (let '(s1, rx) := ev s x in match rx with Ok _ => keys_kw ev evk s1 t | Raise _ => [] end).
+Proof. reflexivity. Qed.
+Lemma eval_keys_0 : forall s v, eval_keys 0 s v = [].
+Proof. reflexivity. Qed.
+Lemma ch_keys_0 : forall s sc sel a k, ch_keys 0 s sc sel a k = [].
+Proof. reflexivity. Qed.
+Lemma call_keys_0 : forall s sel a k, call_keys 0 s sel a k = [].
+Proof. reflexivity. Qed.
+Lemma eval_keys_VList : forall f s l, eval_keys (S f) s (VList l) = keys_list (eval f) (eval_keys f) s l.
+Proof. reflexivity. Qed.
+Lemma eval_keys_VTuple : forall f s l, eval_keys (S f) s (VTuple l) = keys_list (eval f) (eval_keys f) s l.
+Proof. reflexivity. Qed.
+Lemma eval_keys_VDict : forall f s l, eval_keys (S f) s (VDict l) = keys_dict (eval f) (eval_keys f) s l.
+Proof. reflexivity. Qed.
+Lemma eval_keys_VRef_true : forall f s sc sel, eval_keys (S f) s (VRef sc sel true) = ch_keys f s sc sel [] [].
+Proof. reflexivity. Qed.
+Lemma ch_keys_S : forall f s sc sel args kwargs, ch_keys (S f) s sc sel args kwargs =
+  match sc with
+  | [] => call_keys f s sel args kwargs
+  | _ => if negb (scope_valid sc) then [] else call_keys f (set_scopes (sc :: scopes s) s) sel args kwargs
+  end.
+Proof. reflexivity. Qed.
+Lemma call_keys_S : forall f s sel args kwargs, call_keys (S f) s sel args kwargs =
+  match lookup_sel s sel with
+  | None => []
+  | Some c =>
+      if existsb is_req (skipn (List.length (supplied_positional_names (c_sig c) args)) args) then [] else
+      let nk := prep_bindings (config s) (current_scope s) c args kwargs in
+      let s0 := oper_update s (scope_str (current_scope s), sel) (prep_operative c args kwargs nk) in
+      (scope_str (current_scope s), sel) ::
+        keys_kw (eval f) (eval_keys f) s0 nk ++
+        (let '(s1, rk) := go_kw (eval f) s0 nk in
+         keys_tail (fun st hsc hsel => ch_keys f st hsc hsel [] []) c (scope_str (current_scope s)) args kwargs s1 rk)
+  end.
+Proof. reflexivity. Qed.
+
+(* ---- the invariant ---- *)
+Definition tracks (s s' : state) (ks : list ckey) : Prop :=
+  (forall k, ~ In k ks -> cget k (operative s') = cget k (operative s)) /\
+  (forall k, In k ks -> cget k (operative s') <> None) /\
+  oper_mono s s'.
+
+Lemma tracks_same : forall s s', operative s' = operative s -> tracks s s' [].
+Proof.
+  intros s s' H. split; [|split].
+  - intros k _. rewrite H. reflexivity.
+  - intros k [].
+  - intros k Hk. rewrite H. exact Hk.
+Qed.
+Lemma tracks_refl : forall s, tracks s s [].
+Proof. intro s. apply tracks_same. reflexivity. Qed.
+Lemma tracks_trans : forall s1 s2 s3 a b, tracks s1 s2 a -> tracks s2 s3 b -> tracks s1 s3 (a ++ b).
+Proof.
+  intros s1 s2 s3 a b (A1 & A2 & A3) (B1 & B2 & B3). split; [|split].
+  - intros k Hk. rewrite B1, A1; [reflexivity| |]; intro Hin; apply Hk; apply in_or_app; [left|right]; exact Hin.
+  - intros k Hk. apply in_app_or in Hk. destruct Hk as [Hk|Hk]; [apply B3, A2, Hk|apply B2, Hk].
+  - eapply om_trans; eassumption.
+Qed.
+Lemma tracks_pre : forall s s1 s2 ks, operative s1 = operative s -> tracks s1 s2 ks -> tracks s s2 ks.
+Proof. intros s s1 s2 ks H T. apply (tracks_trans s s1 s2 [] ks); [apply tracks_same; exact H|exact T]. Qed.
+Lemma tracks_post : forall s s2 s3 ks, tracks s s2 ks -> operative s3 = operative s2 -> tracks s s3 ks.
+Proof.
+  intros s s2 s3 ks T H. rewrite <- (app_nil_r ks). apply (tracks_trans s s2 s3 ks []); [exact T|apply tracks_same; exact H].
+Qed.
+Lemma tracks_oper_update : forall s k v, tracks s (oper_update s k v) [k].
+Proof.
+  intros s k v. split; [|split].
+  - intros k' Hk. apply C07_oper_update_other. destruct (ckey_eqb_spec k' k) as [->|N]; [|reflexivity].
+    exfalso. apply Hk. left; reflexivity.
+  - intros k' [<-|[]]. rewrite C07_oper_update_get. discriminate.
+  - apply om_oper_update.
+Qed.
+
+Definition ev_tracks (ev : evaluator) (evk : keyer) : Prop :=
+  forall s v s' r, ev s v = (s', r) -> tracks s s' (evk s v).
+
+Lemma keys_list_tracks : forall ev evk, ev_tracks ev evk ->
+  forall l s s' r, go_list ev s l = (s', r) -> tracks s s' (keys_list ev evk s l).
+Proof.
+  intros ev evk Hev l. induction l as [|x t IH]; intros s s' r H.
+  - simpl in H. inversion H; subst. apply tracks_refl.
+  - rewrite go_list_cons in H. rewrite keys_list_cons.
+    destruct (ev s x) as [s1 rx] eqn:E1. pose proof (Hev _ _ _ _ E1) as F1.
+    destruct rx as [x'|e]; [|inversion H; subst; rewrite app_nil_r; exact F1].
+    destruct (go_list ev s1 t) as [s2 rt] eqn:E2.
+    pose proof (IH _ _ _ E2) as F2.
+    destruct rt; inversion H; subst; eapply tracks_trans; eassumption.
+Qed.
+
+Lemma keys_dict_tracks : forall ev evk, ev_tracks ev evk ->
+  forall l s s' r, go_dict ev s l = (s', r) -> tracks s s' (keys_dict ev evk s l).
+Proof.
+  intros ev evk Hev l. induction l as [|[k x] t IH]; intros s s' r H.
+  - simpl in H. inversion H; subst. apply tracks_refl.
+  - rewrite go_dict_cons in H. rewrite keys_dict_cons.
+    destruct (ev s k) as [s0 rk] eqn:E0. pose proof (Hev _ _ _ _ E0) as F0.
+    destruct rk as [k'|e]; [|inversion H; subst; rewrite app_nil_r; exact F0].
+    destruct (ev s0 x) as [s1 rx] eqn:E1. pose proof (Hev _ _ _ _ E1) as F1.
+    destruct rx as [x'|e]; [|inversion H; subst; rewrite app_nil_r; eapply tracks_trans; eassumption].
+    destruct (go_dict ev s1 t) as [s2 rt] eqn:E2.
+    pose proof (IH _ _ _ E2) as F2.
+    destruct rt; inversion H; subst; (eapply tracks_trans; [exact F0|]; eapply tracks_trans; eassumption).
+Qed.
+
+Lemma keys_kw_tracks : forall ev evk, ev_tracks ev evk ->
+  forall l s s' r, go_kw ev s l = (s', r) -> tracks s s' (keys_kw ev evk s l).
+Proof.
+  intros ev evk Hev l. induction l as [|[k x] t IH]; intros s s' r H.
+  - simpl in H. inversion H; subst. apply tracks_refl.
+  - rewrite go_kw_cons in H. rewrite keys_kw_cons.
+    destruct (ev s x) as [s1 rx] eqn:E1. pose proof (Hev _ _ _ _ E1) as F1.
+    destruct rx as [x'|e]; [|inversion H; subst; rewrite app_nil_r; exact F1].
+    destruct (go_kw ev s1 t) as [s2 rt] eqn:E2.
+    pose proof (IH _ _ _ E2) as F2.
+    destruct rt; inversion H; subst; eapply tracks_trans; eassumption.
+Qed.
+
+Definition ch_tracks (f : nat) : Prop :=
+  forall s sc sel args kw s' r, call_handle f s sc sel args kw = (s', r) -> tracks s s' (ch_keys f s sc sel args kw).
+Definition call_tracks (f : nat) : Prop :=
+  forall s sel args kw s' r, call f s sel args kw = (s', r) -> tracks s s' (call_keys f s sel args kw).
+
+Lemma keys_tail_tracks : forall f c sel sstr args kwargs s rk s' r, ch_tracks f ->
+  call_tail f c sel sstr args kwargs s rk = (s', r) ->
+  tracks s s' (keys_tail (fun st hsc hsel => ch_keys f st hsc hsel [] []) c sstr args kwargs s rk).
+Proof.
+  intros f c sel sstr args kwargs s rk s' r Hch H. unfold call_tail in H. unfold keys_tail.
+  destruct rk as [nk|e]; [|inversion H; subst; apply tracks_refl].
+  destruct (merge_call c args kwargs nk) as [[new_args final_kwargs]|e]; [|inversion H; subst; apply tracks_refl].
+  destruct (py_bind (c_sig c) new_args final_kwargs) as [env|]; [|inversion H; subst; apply tracks_refl].
+  destruct (c_kind c).
+  - inversion H; subst. apply tracks_same. reflexivity.
+  - inversion H; subst. apply tracks_refl.
+  - destruct (fget (to_key sstr) (sm_flat (constants s))); inversion H; subst; apply tracks_refl.
+  - destruct (sget sstr (singletons s)); [inversion H; subst; apply tracks_refl|].
+    destruct (sget "constructor" env) as [x|]; [|inversion H; subst; apply tracks_refl].
+    destruct x; try (inversion H; subst; apply tracks_refl).
+    destruct (call_handle f s scopes sel0 [] []) as [s1 r1] eqn:E.
+    pose proof (Hch _ _ _ _ _ _ _ E) as F.
+    destruct r1; inversion H; subst; [|exact F].
+    eapply tracks_post; [exact F|reflexivity].
+Qed.
+
+Lemma tracks_all : forall fuel, ev_tracks (eval fuel) (eval_keys fuel) /\ ch_tracks fuel /\ call_tracks fuel.
+Proof.
+  induction fuel as [|f [IHe [IHh IHc]]].
+  - split; [|split].
+    + intros s v s' r H. rewrite eval_0 in H. inversion H; subst. apply tracks_refl.
+    + intros s sc sel a k s' r H. rewrite call_handle_0 in H. inversion H; subst. apply tracks_refl.
+    + intros s sel a k s' r H. rewrite call_0 in H. inversion H; subst. apply tracks_refl.
+  - split; [|split].
+    + intros s v s' r H. destruct v; try (simpl in H; inversion H; subst; apply tracks_refl).
+      * rewrite eval_VList in H. rewrite eval_keys_VList. destruct (go_list (eval f) s l) as [s1 r1] eqn:E.
+        inversion H; subst. eapply keys_list_tracks; eassumption.
+      * rewrite eval_VTuple in H. rewrite eval_keys_VTuple. destruct (go_list (eval f) s l) as [s1 r1] eqn:E.
+        inversion H; subst. eapply keys_list_tracks; eassumption.
+      * rewrite eval_VDict in H. rewrite eval_keys_VDict. destruct (go_dict (eval f) s l) as [s1 r1] eqn:E.
+        inversion H; subst. eapply keys_dict_tracks; eassumption.
+      * destruct ev.
+        -- rewrite eval_VRef_true in H. rewrite eval_keys_VRef_true. eapply IHh; eassumption.
+        -- rewrite eval_VRef_false in H. inversion H; subst. apply tracks_refl.
+    + intros s sc sel args kw s' r H. rewrite call_handle_S in H. rewrite ch_keys_S.
+      destruct sc as [|x sc]; [eapply IHc; eassumption|].
+      cbv zeta in H. destruct (negb (scope_valid (x :: sc))).
+      * inversion H; subst. apply tracks_same. reflexivity.
+      * destruct (call f (set_scopes ((x :: sc) :: scopes s) s) sel args kw) as [s2 r2] eqn:E.
+        apply IHc in E. inversion H; subst. clear H.
+        eapply tracks_post; [eapply tracks_pre; [|exact E]; reflexivity|reflexivity].
+    + intros s sel args kw s' r H. rewrite call_S in H. rewrite call_keys_S.
+      destruct (lookup_sel s sel) as [c|]; [|inversion H; subst; apply tracks_refl].
+      destruct (existsb is_req _); [inversion H; subst; apply tracks_refl|].
+      cbv zeta in H. cbv zeta.
+      match type of H with (let '(_, _) := ?X in _) = _ => destruct X as [s1 rk] eqn:E end.
+      apply (keys_kw_tracks _ _ IHe) in E. apply keys_tail_tracks in H; [|exact IHh].
+      refine (tracks_trans s _ s' [(scope_str (current_scope s), sel)] _ (tracks_oper_update _ _ _) _).
+      eapply tracks_trans; eassumption.
+Qed.
+
+Lemma ckey_eq_dec : forall a b : ckey, {a = b} + {a <> b}.
+Proof. intros a b. destruct (ckey_eqb_spec a b); [left|right]; assumption. Qed.
+
+(* a section whose content differs after the call belongs to a call that was entered *)
+Theorem C07_changed_section_was_entered : forall fuel s sel args kw s' r k, call fuel s sel args kw = (s', r) ->
+  cget k (operative s') <> cget k (operative s) -> In k (call_keys fuel s sel args kw).
+Proof.
+  intros fuel s sel args kw s' r k H Hne.
+  destruct (in_dec ckey_eq_dec k (call_keys fuel s sel args kw)) as [Hin|Hnin]; [exact Hin|].
+  exfalso. apply Hne. exact (proj1 (proj2 (proj2 (tracks_all fuel)) _ _ _ _ _ _ H) k Hnin).
+Qed.
+(* equivalently: the sections of pairs that were not entered are untouched *)
+Theorem C07_unentered_section_untouched : forall fuel s sel args kw s' r k, call fuel s sel args kw = (s', r) ->
+  ~ In k (call_keys fuel s sel args kw) -> cget k (operative s') = cget k (operative s).
+Proof. intros fuel s sel args kw s' r k H. exact (proj1 (proj2 (proj2 (tracks_all fuel)) _ _ _ _ _ _ H) k). Qed.
+(* conversely every entered call has a section afterwards *)
+Theorem C07_entered_section_exists : forall fuel s sel args kw s' r k, call fuel s sel args kw = (s', r) ->
+  In k (call_keys fuel s sel args kw) -> cget k (operative s') <> None.
+Proof. intros fuel s sel args kw s' r k H. exact (proj1 (proj2 (proj2 (proj2 (tracks_all fuel)) _ _ _ _ _ _ H)) k). Qed.
+
+(* the same for eval (copy.deepcopy of a value holding references) and for scoped handles *)
+Theorem C07_changed_section_was_entered_eval : forall fuel s v s' r k, eval fuel s v = (s', r) ->
+  cget k (operative s') <> cget k (operative s) -> In k (eval_keys fuel s v).
+Proof.
+  intros fuel s v s' r k H Hne.
+  destruct (in_dec ckey_eq_dec k (eval_keys fuel s v)) as [Hin|Hnin]; [exact Hin|].
+  exfalso. apply Hne. exact (proj1 (proj1 (tracks_all fuel) _ _ _ _ H) k Hnin).
+Qed.
+Theorem C07_entered_section_exists_eval : forall fuel s v s' r k, eval fuel s v = (s', r) ->
+  In k (eval_keys fuel s v) -> cget k (operative s') <> None.
+Proof. intros fuel s v s' r k H. exact (proj1 (proj2 (proj1 (tracks_all fuel) _ _ _ _ H)) k). Qed.
+Theorem C07_changed_section_was_entered_handle : forall fuel s sc sel args kw s' r k,
+  call_handle fuel s sc sel args kw = (s', r) ->
+  cget k (operative s') <> cget k (operative s) -> In k (ch_keys fuel s sc sel args kw).
+Proof.
+  intros fuel s sc sel args kw s' r k H Hne.
+  destruct (in_dec ckey_eq_dec k (ch_keys fuel s sc sel args kw)) as [Hin|Hnin]; [exact Hin|].
+  exfalso. apply Hne. exact (proj1 (proj1 (proj2 (tracks_all fuel)) _ _ _ _ _ _ _ H) k Hnin).
+Qed.
+Theorem C07_entered_section_exists_handle : forall fuel s sc sel args kw s' r k,
+  call_handle fuel s sc sel args kw = (s', r) ->
+  In k (ch_keys fuel s sc sel args kw) -> cget k (operative s') <> None.
+Proof. intros fuel s sc sel args kw s' r k H. exact (proj1 (proj2 (proj1 (proj2 (tracks_all fuel)) _ _ _ _ _ _ _ H)) k). Qed.
+
+(* what "entered" means at the outermost level: the call itself is the first entry, exactly when the wrapper
+   gets past its entry checks *)
+Theorem call_keys_head : forall f s sel args kw c, lookup_sel s sel = Some c ->
+  existsb is_req (skipn (List.length (supplied_positional_names (c_sig c) args)) args) = false ->
+  exists rest, call_keys (S f) s sel args kw = (scope_str (current_scope s), sel) :: rest.
+Proof. intros f s sel args kw c Hl Hr. rewrite call_keys_S, Hl, Hr. eexists. reflexivity. Qed.
+Theorem call_keys_rejected : forall f s sel args kw,
+  (lookup_sel s sel = None \/
+   exists c, lookup_sel s sel = Some c /\
+             existsb is_req (skipn (List.length (supplied_positional_names (c_sig c) args)) args) = true) ->
+  call_keys (S f) s sel args kw = [].
+Proof.
+  intros f s sel args kw [H|[c [Hl Hr]]]; rewrite call_keys_S.
+  - rewrite H. reflexivity.
+  - rewrite Hl, Hr. reflexivity.
+Qed.
+(* with reference-free bindings and a non-singleton configurable nothing else is entered *)
+Lemma keys_list_nil : forall (ev : evaluator) (evk : keyer) s l,
+  (forall x, In x l -> ev s x = (s, Ok x) /\ evk s x = []) -> keys_list ev evk s l = [].
+Proof.
+  intros ev evk s l. induction l as [|x t IH]; intros H; [reflexivity|].
+  destruct (H x (or_introl eq_refl)) as [H1 H2]. rewrite keys_list_cons, H1, H2. simpl.
+  apply IH. intros y Hy. apply H. right; exact Hy.
+Qed.
+Lemma keys_dict_nil : forall (ev : evaluator) (evk : keyer) s l,
+  (forall k x, In (k, x) l -> (ev s k = (s, Ok k) /\ evk s k = []) /\ (ev s x = (s, Ok x) /\ evk s x = [])) ->
+  keys_dict ev evk s l = [].
+Proof.
+  intros ev evk s l. induction l as [|[k x] t IH]; intros H; [reflexivity|].
+  destruct (H k x (or_introl eq_refl)) as [[H1 H2] [H3 H4]]. rewrite keys_dict_cons, H1, H2, H3, H4. simpl.
+  apply IH. intros k' y Hy. apply H. right; exact Hy.
+Qed.
+Lemma keys_kw_nil : forall (ev : evaluator) (evk : keyer) s (l : pdict),
+  (forall k x, In (k, x) l -> ev s x = (s, Ok x) /\ evk s x = []) -> keys_kw ev evk s l = [].
+Proof.
+  intros ev evk s l. induction l as [|[k x] t IH]; intros H; [reflexivity|].
+  destruct (H k x (or_introl eq_refl)) as [H1 H2]. rewrite keys_kw_cons, H1, H2. simpl.
+  apply IH. intros k' y Hy. eapply H. right; exact Hy.
+Qed.
+
+Lemma eval_keys_ref_free_at : forall n s v, ref_free_at n v = true -> eval_keys n s v = [].
+Proof.
+  induction n as [|n IH]; intros s v H; [discriminate|].
+  destruct v; try discriminate; try reflexivity.
+  - cbn [ref_free_at] in H. rewrite forallb_forall in H. rewrite eval_keys_VList. apply keys_list_nil.
+    intros x Hx. split; [apply eval_ref_free_at|apply IH]; apply H, Hx.
+  - cbn [ref_free_at] in H. rewrite forallb_forall in H. rewrite eval_keys_VTuple. apply keys_list_nil.
+    intros x Hx. split; [apply eval_ref_free_at|apply IH]; apply H, Hx.
+  - cbn [ref_free_at] in H. rewrite forallb_forall in H. rewrite eval_keys_VDict. apply keys_dict_nil.
+    intros k x Hx. specialize (H _ Hx). cbn [fst snd] in H. apply andb_true_iff in H. destruct H as [H1 H2].
+    split; (split; [apply eval_ref_free_at|apply IH]; assumption).
+Qed.
+
+Theorem call_keys_ref_free : forall f s sel args kwargs c, lookup_sel s sel = Some c -> c_kind c <> KSingleton ->
+  existsb is_req (skipn (List.length (supplied_positional_names (c_sig c) args)) args) = false ->
+  (forall k v, In (k, v) (prep_bindings (config s) (current_scope s) c args kwargs) -> ref_free_at f v = true) ->
+  call_keys (S f) s sel args kwargs = [(scope_str (current_scope s), sel)].
+Proof.
+  intros f s sel args kwargs c Hl Hk Hreq Hrf. rewrite call_keys_S, Hl, Hreq. cbv zeta.
+  rewrite go_kw_id by (intros k x Hx; apply eval_ref_free_at; eapply Hrf; exact Hx).
+  rewrite keys_kw_nil by (intros k x Hx; split; [apply eval_ref_free_at|apply eval_keys_ref_free_at]; eapply Hrf; exact Hx).
+  unfold keys_tail.
+  destruct (merge_call c args kwargs _) as [[na fk]|e]; [|reflexivity].
+  destruct (py_bind (c_sig c) na fk); [|reflexivity].
+  destruct (c_kind c); try reflexivity. contradiction.
+Qed.
+
+(* a concrete trace: f's binding holds two references to g, one of them scoped *)
+Example call_keys_example :
+  let sgx := {| s_args := ["x"]; s_defaults := []; s_varargs := false; s_kwonly := []; s_varkw := false |} in
+  let sg0 := {| s_args := []; s_defaults := []; s_varargs := false; s_kwonly := []; s_varkw := false |} in
+  let pf := {| c_sel := "m.f"; c_kind := KProbe; c_sig := sgx; c_allow := []; c_deny := []; c_method := false |} in
+  let pg := {| c_sel := "m.g"; c_kind := KProbe; c_sig := sg0; c_allow := []; c_deny := []; c_method := false |} in
+  let st := run_top 50 (setup [pf; pg]) [OBind "f.x" (VList [VRef ["a"; "b"] "g" true; VRef [] "g" true])] in
+  call_keys 20 st "m.f" [] [] = [("", "m.f"); ("a/b", "m.g"); ("", "m.g")] /\
+  map fst (operative (fst (call 20 st "m.f" [] []))) = [("", "m.f"); ("a/b", "m.g"); ("", "m.g")].
+Proof. vm_compute. split; reflexivity. Qed.
+
+(* ================================================================== *)
+(* (B) replaying one call from what it recorded                        *)
+(* ================================================================== *)
+
+(* ---- filters that look at the key only ---- *)
+Section KeyFilter.
+  Variable P : string -> bool.
+  Definition kf (l : pdict) : pdict := filter (fun kv => P (fst kv)) l.
+
+  Lemma kf_cons : forall k v l, kf ((k, v) :: l) = if P k then (k, v) :: kf l else kf l.
+  Proof. reflexivity. Qed.
+
+  Lemma sget_kf : forall p l, sget p (kf l) = if P p then sget p l else None.
+  Proof.
+    intros p l. induction l as [|[k v] l IH]; [destruct (P p); reflexivity|].
+    rewrite kf_cons, (sget_cons p k v l). destruct (String.eqb_spec p k) as [E|N].
+    - subst k. destruct (P p) eqn:Ep.
+      + rewrite sget_cons, String.eqb_refl. reflexivity.
+      + rewrite IH. try rewrite Ep. reflexivity.
+    - destruct (P k).
+      + rewrite sget_cons. destruct (String.eqb_spec p k); [contradiction|]. exact IH.
+      + exact IH.
+  Qed.
+
+  Lemma kf_keys_nodup : forall l, NoDup (map fst l) -> NoDup (map fst (kf l)).
+  Proof. intros l H. apply keys_filter_nodup. exact H. Qed.
+
+  Lemma kf_sset : forall k v d, kf (sset k v d) = if P k then sset k v (kf d) else kf d.
+  Proof.
+    intros k v d. induction d as [|[j w] d IH].
+    - rewrite sset_nil, kf_cons. destruct (P k); reflexivity.
+    - rewrite sset_cons. destruct (String.eqb_spec k j) as [E|N].
+      + subst j. rewrite !kf_cons. destruct (P k); [|reflexivity].
+        rewrite sset_cons, String.eqb_refl. reflexivity.
+      + rewrite !kf_cons, IH. destruct (P j); destruct (P k); try reflexivity.
+        rewrite sset_cons. destruct (String.eqb_spec k j); [contradiction|]. reflexivity.
+  Qed.
+
+  Lemma kf_supdate : forall e d, kf (supdate d e) = supdate (kf d) (kf e).
+  Proof.
+    induction e as [|[k v] e IH]; intros d; [reflexivity|].
+    rewrite supdate_cons, IH, kf_sset, kf_cons. destruct (P k); [rewrite supdate_cons|]; reflexivity.
+  Qed.
+
+  Lemma kf_sdel : forall k d, kf (sdel k d) = sdel k (kf d).
+  Proof.
+    intros k d. induction d as [|[j w] d IH]; [reflexivity|].
+    rewrite sdel_cons. destruct (String.eqb_spec k j) as [E|N].
+    - subst j. rewrite kf_cons. destruct (P k) eqn:Ep.
+      + rewrite sdel_cons, String.eqb_refl. reflexivity.
+      + symmetry. apply sdel_none_id. rewrite sget_kf, Ep. reflexivity.
+    - rewrite !kf_cons, IH. destruct (P j); [|reflexivity].
+      rewrite sdel_cons. destruct (String.eqb_spec k j); [contradiction|]. reflexivity.
+  Qed.
+
+  Lemma kf_drop_names : forall names keep d, kf (drop_names names keep d) = drop_names names keep (kf d).
+  Proof.
+    induction names as [|n ns IH]; intros keep d; [reflexivity|].
+    rewrite !drop_names_cons, IH. destruct (str_in n keep); [reflexivity|]. rewrite kf_sdel. reflexivity.
+  Qed.
+
+  Lemma kf_fold_sdel : forall names d,
+    kf (fold_left (fun acc n => sdel n acc) names d) = fold_left (fun acc n => sdel n acc) names (kf d).
+  Proof.
+    induction names as [|n ns IH]; intros d; [reflexivity|]. cbn [fold_left]. rewrite IH, kf_sdel. reflexivity.
+  Qed.
+
+  Lemma kf_nil_of_keys : forall l, (forall p, In p (map fst l) -> P p = false) -> kf l = [].
+  Proof.
+    intros l H. apply filter_all_false. intros [k v] Hin. cbn [fst]. apply H. apply (in_map fst) in Hin. exact Hin.
+  Qed.
+End KeyFilter.
+
+(* ---- small association-list facts ---- *)
+Lemma sset_append : forall (d : pdict) k v, sget k d = None -> sset k v d = d ++ [(k, v)].
+Proof.
+  intros d k v. induction d as [|[j w] d IH]; intros H; [reflexivity|].
+  rewrite sget_cons in H. rewrite sset_cons. destruct (String.eqb k j); [discriminate|].
+  rewrite IH by exact H. reflexivity.
+Qed.
+
+Lemma supdate_append : forall (e d : pdict), NoDup (map fst e) -> (forall p, In p (map fst e) -> sget p d = None) ->
+  supdate d e = d ++ e.
+Proof.
+  induction e as [|[k v] e IH]; intros d Hnd Hd; [rewrite app_nil_r; reflexivity|].
+  simpl in Hnd. inversion Hnd as [|a l Hna Hnd']; subst.
+  rewrite supdate_cons, sset_append by (apply Hd; left; reflexivity).
+  rewrite IH; [rewrite <- app_assoc; reflexivity|exact Hnd'|].
+  intros p Hp. rewrite sget_app, (Hd p (or_intror Hp)), sget_cons, sget_nil.
+  destruct (String.eqb_spec p k) as [E|N]; [|reflexivity]. subst. contradiction.
+Qed.
+
+Lemma supdate_nil_nodup : forall e : pdict, NoDup (map fst e) -> supdate [] e = e.
+Proof. intros e H. rewrite supdate_append; [reflexivity|exact H|intros; reflexivity]. Qed.
+
+Lemma sset_same : forall (d : pdict) k v, sget k d = Some v -> sset k v d = d.
+Proof.
+  intros d k v. induction d as [|[j w] d IH]; intros H; [discriminate|].
+  rewrite sget_cons in H. rewrite sset_cons. destruct (String.eqb_spec k j) as [E|N].
+  - inversion H; subst. reflexivity.
+  - rewrite IH by exact H. reflexivity.
+Qed.
+
+Lemma supdate_absorb : forall (e d : pdict), (forall k v, In (k, v) e -> sget k d = Some v) -> supdate d e = d.
+Proof.
+  induction e as [|[k v] e IH]; intros d H; [reflexivity|].
+  rewrite supdate_cons, sset_same by (apply H; left; reflexivity).
+  apply IH. intros k' v' Hin. apply H. right; exact Hin.
+Qed.
+
+Lemma drop_names_id : forall names keep (l : pdict),
+  (forall n, In n names -> str_in n keep = false -> sget n l = None) -> drop_names names keep l = l.
+Proof.
+  induction names as [|n ns IH]; intros keep l H; [reflexivity|].
+  rewrite drop_names_cons. destruct (str_in n keep) eqn:E.
+  - apply IH. intros m Hm. apply H. right; exact Hm.
+  - rewrite sdel_none_id by (apply H; [left; reflexivity|exact E]).
+    apply IH. intros m Hm. apply H. right; exact Hm.
+Qed.
+
+Lemma sget_fold_sdel : forall names (d : pdict) p, NoDup (map fst d) ->
+  sget p (fold_left (fun acc n => sdel n acc) names d) = if str_in p names then None else sget p d.
+Proof.
+  induction names as [|n ns IH]; intros d p Hnd; [reflexivity|].
+  cbn [fold_left]. rewrite IH by (apply keys_sdel_nodup; exact Hnd). rewrite str_in_cons, sget_sdel by exact Hnd.
+  destruct (String.eqb p n); destruct (str_in p ns); reflexivity.
+Qed.
+
+Lemma fold_sdel_nodup : forall names (d : pdict), NoDup (map fst d) ->
+  NoDup (map fst (fold_left (fun acc n => sdel n acc) names d)).
+Proof.
+  induction names as [|n ns IH]; intros d H; [exact H|]. cbn [fold_left]. apply IH. apply keys_sdel_nodup. exact H.
+Qed.
+
+(* ---- names ---- *)
+Definition sig_name (sg : sig) (p : string) : bool := str_in p (s_args sg) || str_in p (kwonly_names sg).
+
+Lemma sig_name_named : forall sg p, sig_name sg p = true <-> named sg p.
+Proof.
+  intros sg p. unfold sig_name, named. rewrite orb_true_iff, !str_in_iff, in_app_iff. tauto.
+Qed.
+
+Lemma combine_keys_in : forall {A B} (a : list A) (b : list B) x, In x (map fst (combine a b)) -> In x a.
+Proof.
+  intros A B a. induction a as [|y a IH]; intros b x H; [inversion H|].
+  destruct b as [|z b]; [inversion H|]. simpl in H. destruct H as [H|H]; [left; exact H|right; eapply IH; exact H].
+Qed.
+
+Lemma kwarg_defaults_keys_named : forall sg p, In p (map fst (kwarg_defaults sg)) -> sig_name sg p = true.
+Proof.
+  intros sg p H. unfold kwarg_defaults in H. apply keys_supdate_in in H. apply sig_name_named. unfold named.
+  apply in_or_app. destruct H as [H|H].
+  - left.
+    match type of H with In p (map fst (fold_left _ ?l [])) =>
+      change (In p (map fst (supdate (@nil (string * value)) l))) in H end.
+    apply keys_supdate_in in H. destruct H as [[]|H].
+    apply combine_keys_in in H.
+    rewrite <- (firstn_skipn (List.length (s_args sg) - List.length (s_defaults sg)) (s_args sg)).
+    apply in_or_app. right. exact H.
+  - right. unfold kwonly_names. apply in_map_iff in H. destruct H as [[k v] [E H]]. cbn [fst] in E. subst k.
+    apply in_flat_map in H. destruct H as [[k' o] [H1 H2]]. cbn [fst snd] in H2.
+    destruct o as [d|]; [|inversion H2]. destruct H2 as [H2|[]]. inversion H2; subst.
+    apply in_map_iff. exists (p, Some v). split; [reflexivity|exact H1].
+Qed.
+
+Lemma configurable_default_is_default : forall c p v, sget p (configurable_defaults c) = Some v ->
+  sget p (kwarg_defaults (c_sig c)) = Some v /\ sig_name (c_sig c) p = true.
+Proof.
+  intros c p v H. apply C07_configurable_defaults_spec_strong in H. destruct H as [H _]. split; [exact H|].
+  apply kwarg_defaults_keys_named. eapply sget_some_key; exact H.
+Qed.
+
+(* ---- "supplied by the caller" ---- *)
+Definition supplied_b (c : cfgable) (args : list value) (kwargs : pdict) (p : string) : bool :=
+  (str_in p (supplied_positional_names (c_sig c) args)
+   && negb (str_in p (required_positions (supplied_positional_names (c_sig c) args) args)))
+  || (str_in p (map fst kwargs) && negb (str_in p (caller_req_kw kwargs))).
+
+Lemma prep_bindings_sget_supplied : forall cfg scope c args kwargs p,
+  sget p (prep_bindings cfg scope c args kwargs) =
+  if supplied_b c args kwargs p then None else sget p (get_bindings_for cfg scope (c_sel c) true).
+Proof.
+  intros. rewrite prep_bindings_sget_gen. unfold supplied_b.
+  destruct (str_in p (map fst kwargs) && negb (str_in p (caller_req_kw kwargs))); [rewrite orb_true_r; reflexivity|].
+  rewrite orb_false_r. reflexivity.
+Qed.
+
+Lemma prep_operative_sget_supplied : forall c args kwargs nk p, NoDup (map fst nk) ->
+  sget p (prep_operative c args kwargs nk) =
+  if supplied_b c args kwargs p then None
+  else match sget p nk with Some v => Some v | None => sget p (configurable_defaults c) end.
+Proof. intros. rewrite C07_prep_operative_spec_strong by assumption. reflexivity. Qed.
+
+(* ---- the relation between the bindings of the original call and those of the replay ---- *)
+Definition nsig (c : cfgable) : string -> bool := fun p => negb (sig_name (c_sig c) p).
+
+Definition extends_by_defaults (c : cfgable) (args : list value) (kwargs nk nk' : pdict) : Prop :=
+  NoDup (map fst nk) /\ NoDup (map fst nk') /\
+  (forall p, sget p nk' = match sget p nk with
+                          | Some v => Some v
+                          | None => if supplied_b c args kwargs p then None else sget p (configurable_defaults c)
+                          end) /\
+  kf (nsig c) nk' = kf (nsig c) nk.
+
+Lemma replay_bindings_extend : forall c cfg cfg' scope args kwargs,
+  get_bindings_for cfg' scope (c_sel c) true =
+    prep_operative c args kwargs (prep_bindings cfg scope c args kwargs) ->
+  extends_by_defaults c args kwargs (prep_bindings cfg scope c args kwargs) (prep_bindings cfg' scope c args kwargs).
+Proof.
+  intros c cfg cfg' scope args kwargs Hd.
+  pose proof (prep_bindings_nodup cfg scope c args kwargs) as Hn.
+  split; [exact Hn|]. split; [apply prep_bindings_nodup|]. split.
+  - intro p. rewrite (prep_bindings_sget_supplied cfg'), Hd, prep_operative_sget_supplied by exact Hn.
+    rewrite (prep_bindings_sget_supplied cfg). destruct (supplied_b c args kwargs p); [reflexivity|].
+    destruct (sget p (get_bindings_for cfg scope (c_sel c) true)); reflexivity.
+  - set (nk := prep_bindings cfg scope c args kwargs) in *.
+    assert (Hk : forall names keep, (forall n, In n names -> str_in n keep = false -> sget n nk = None) ->
+                 drop_names names keep (kf (nsig c) nk) = kf (nsig c) nk).
+    { intros names keep H. apply drop_names_id. intros n Hi Hk. rewrite sget_kf, (H n Hi Hk).
+      destruct (nsig c n); reflexivity. }
+    assert (H1 : forall n, In n (supplied_positional_names (c_sig c) args) ->
+                 str_in n (required_positions (supplied_positional_names (c_sig c) args) args) = false -> sget n nk = None).
+    { intros n Hi Hr. unfold nk. rewrite prep_bindings_sget_supplied. unfold supplied_b.
+      apply str_in_iff in Hi. rewrite Hi, Hr. reflexivity. }
+    assert (H2 : forall n, In n (map fst kwargs) ->
+                 str_in n (map fst (filter (fun kv => is_req (snd kv)) kwargs)) = false -> sget n nk = None).
+    { intros n Hi Hr. unfold nk. rewrite prep_bindings_sget_supplied. unfold supplied_b, caller_req_kw.
+      apply str_in_iff in Hi. rewrite Hi, Hr. rewrite orb_true_r. reflexivity. }
+    unfold prep_bindings at 1. rewrite Hd. unfold prep_operative. fold nk.
+    rewrite !kf_drop_names, kf_supdate.
+    rewrite (kf_nil_of_keys (nsig c) (configurable_defaults c)).
+    + rewrite supdate_nil_nodup by (apply kf_keys_nodup; exact Hn).
+      rewrite (Hk _ _ H1), (Hk _ _ H2), (Hk _ _ H1), (Hk _ _ H2). reflexivity.
+    + intros p Hp. apply in_keys_sget in Hp. destruct Hp as [v Hv].
+      apply configurable_default_is_default in Hv. unfold nsig. rewrite (proj2 Hv). reflexivity.
+Qed.
+
+(* ---- fill_required when nothing is missing ---- *)
+Lemma fill_required_ok_shape : forall names args nk na nka, fill_required names args nk = (na, nka, []) ->
+  nka = fold_left (fun acc n => sdel n acc) (required_positions names args) nk.
+Proof.
+  induction names as [|n ns IH]; intros args nk na nka H.
+  - rewrite fill_required_nil_l in H. inversion H; reflexivity.
+  - destruct args as [|a r].
+    + rewrite fill_required_nil_r in H. inversion H; reflexivity.
+    + apply fill_required_inv in H. destruct H as [na0 [miss0 [v0 [nk0 [H [E Hc]]]]]].
+      cbn [required_positions].
+      destruct Hc as [[Ha [Hg [En Em]]]|[[Ha [Hg [Ev [En Em]]]]|[Ha [Ev [En Em]]]]]; subst nk0.
+      * subst miss0. rewrite Ha. cbn [app fold_left]. eapply IH; exact H.
+      * discriminate.
+      * subst miss0. rewrite Ha. cbn [app]. eapply IH; exact H.
+Qed.
+
+Lemma fill_required_mono : forall names args nk nk' na nka, NoDup (map fst nk) -> NoDup (map fst nk') ->
+  (forall p v, sget p nk = Some v -> sget p nk' = Some v) ->
+  fill_required names args nk = (na, nka, []) -> exists nka', fill_required names args nk' = (na, nka', []).
+Proof.
+  induction names as [|n ns IH]; intros args nk nk' na nka Hn Hn' Hm H.
+  - rewrite fill_required_nil_l in H. inversion H; subst. exists nk'. reflexivity.
+  - destruct args as [|a r].
+    + rewrite fill_required_nil_r in H. inversion H; subst. exists nk'. reflexivity.
+    + apply fill_required_inv in H. destruct H as [na0 [miss0 [v0 [nk0 [H [E Hc]]]]]]. subst na.
+      destruct Hc as [[Ha [Hg [En Em]]]|[[Ha [Hg [Ev [En Em]]]]|[Ha [Ev [En Em]]]]]; subst nk0.
+      * subst miss0.
+        destruct (IH r (sdel n nk) (sdel n nk') na0 nka) as [nka' E'].
+        -- apply keys_sdel_nodup; exact Hn.
+        -- apply keys_sdel_nodup; exact Hn'.
+        -- intros p v. rewrite !sget_sdel by assumption. destruct (String.eqb p n); [discriminate|apply Hm].
+        -- exact H.
+        -- exists nka'. cbn [fill_required]. rewrite Ha, (Hm n v0 Hg), E'. reflexivity.
+      * discriminate.
+      * subst miss0 v0. destruct (IH r nk nk' na0 nka Hn Hn' Hm H) as [nka' E'].
+        exists nka'. cbn [fill_required]. rewrite Ha, E'. reflexivity.
+Qed.
+
+Lemma filter_ext_in' : forall {A} (f g : A -> bool) l, (forall x, In x l -> f x = g x) -> filter f l = filter g l.
+Proof.
+  intros A f g l. induction l as [|x t IH]; intros H; [reflexivity|].
+  cbn [filter]. rewrite (H x (or_introl eq_refl)), IH; [reflexivity|]. intros y Hy. apply H. right; exact Hy.
+Qed.
+
+(* ---- merge_call on the replayed bindings ---- *)
+Theorem replay_merge_call : forall c args kwargs nk nk' na fk,
+  extends_by_defaults c args kwargs nk nk' ->
+  merge_call c args kwargs nk = Ok (na, fk) ->
+  exists fk', merge_call c args kwargs nk' = Ok (na, fk') /\
+    List.length na = List.length args /\
+    NoDup (map fst fk) /\ NoDup (map fst fk') /\
+    (forall p v, sget p fk = Some v -> sget p fk' = Some v) /\
+    (forall p v, sget p fk = None -> sget p fk' = Some v ->
+       sget p (configurable_defaults c) = Some v /\
+       str_in p (supplied_positional_names (c_sig c) args) = false /\ str_in p (map fst kwargs) = false) /\
+    kf (nsig c) fk' = kf (nsig c) fk.
+Proof.
+  intros c args kwargs nk nk' na fk (Hn & Hn' & Hs & Hf) H.
+  destruct (fill_required (supplied_positional_names (c_sig c) args) args nk) as [[na0 nka] miss1] eqn:Ef.
+  rewrite (merge_call_eq c args kwargs nk na0 nka miss1 Ef) in H.
+  destruct (miss1 ++ miss2_of c args kwargs nka ++ miss3_of kwargs nka) as [|m ms] eqn:Em; [|discriminate].
+  inversion H; subst na0 fk. clear H.
+  apply app_eq_nil in Em. destruct Em as [Em1 Em]. apply app_eq_nil in Em. destruct Em as [Em2 Em3]. subst miss1.
+  assert (Hm : forall p v, sget p nk = Some v -> sget p nk' = Some v).
+  { intros p v Hp. rewrite Hs, Hp. reflexivity. }
+  destruct (fill_required_mono _ _ _ _ _ _ Hn Hn' Hm Ef) as [nka' Ef'].
+  pose proof (fill_required_ok_shape _ _ _ _ _ Ef) as Sh.
+  pose proof (fill_required_ok_shape _ _ _ _ _ Ef') as Sh'.
+  set (rq := required_positions (supplied_positional_names (c_sig c) args) args) in *.
+  assert (G : forall p, sget p nka = if str_in p rq then None else sget p nk).
+  { intro p. rewrite Sh. apply sget_fold_sdel. exact Hn. }
+  assert (G' : forall p, sget p nka' = if str_in p rq then None else sget p nk').
+  { intro p. rewrite Sh'. apply sget_fold_sdel. exact Hn'. }
+  assert (Na : NoDup (map fst nka)) by (rewrite Sh; apply fold_sdel_nodup; exact Hn).
+  assert (Na' : NoDup (map fst nka')) by (rewrite Sh'; apply fold_sdel_nodup; exact Hn').
+  assert (M1 : forall p v, sget p nka = Some v -> sget p nka' = Some v).
+  { intros p v. rewrite G, G'. destruct (str_in p rq); [discriminate|apply Hm]. }
+  assert (M1s : forall p, smem p nka = true -> smem p nka' = true).
+  { intros p. rewrite !smem_sget. destruct (sget p nka) as [v|] eqn:E; [|discriminate].
+    rewrite (M1 p v E). reflexivity. }
+  assert (Em2' : miss2_of c args kwargs nka' = []).
+  { unfold miss2_of in *. apply filter_all_false. intros r Hr.
+    pose proof (filter_nil_forall _ _ Em2 r Hr) as Hc. cbv beta in Hc.
+    destruct (smem r nka) eqn:Es; [rewrite (M1s r Es); simpl; apply andb_false_r|].
+    simpl in Hc. rewrite andb_true_r in Hc. rewrite Hc. reflexivity. }
+  assert (Em3' : miss3_of kwargs nka' = []).
+  { unfold miss3_of in *. apply filter_all_false. intros r Hr.
+    pose proof (filter_nil_forall _ _ Em3 r Hr) as Hc. cbv beta in Hc.
+    apply negb_false_iff in Hc. rewrite (M1s r Hc). reflexivity. }
+  assert (Crk : forall p, str_in p (caller_req_kw kwargs) = true -> smem p nka = true).
+  { intros p Hp. apply str_in_iff in Hp. unfold miss3_of in Em3.
+    pose proof (filter_nil_forall _ _ Em3 p Hp) as Hc. cbv beta in Hc. apply negb_false_iff in Hc. exact Hc. }
+  assert (Ek : kwargs_kept kwargs nka' = kwargs_kept kwargs nka).
+  { unfold kwargs_kept. apply filter_ext_in'. intros [k v] _. cbn [fst].
+    destruct (str_in k (caller_req_kw kwargs)) eqn:Ec; [|reflexivity].
+    rewrite (Crk k Ec), (M1s k (Crk k Ec)). reflexivity. }
+  exists (supdate nka' (kwargs_kept kwargs nka)).
+  split; [|split; [|split; [|split; [|split; [|split]]]]].
+  - rewrite (merge_call_eq c args kwargs nk' na nka' [] Ef'), Em2', Em3', Ek. reflexivity.
+  - eapply fill_required_length; exact Ef.
+  - apply keys_supdate_nodup. exact Na.
+  - apply keys_supdate_nodup. exact Na'.
+  - intros p v. rewrite !sget_supdate. destruct (sget_last p (kwargs_kept kwargs nka)); [auto|apply M1].
+  - intros p v. rewrite !sget_supdate. destruct (sget_last p (kwargs_kept kwargs nka)); [discriminate|].
+    intros Hp Hp'. rewrite G in Hp. rewrite G' in Hp'.
+    destruct (str_in p rq) eqn:Er; [discriminate|].
+    rewrite Hs, Hp in Hp'. destruct (supplied_b c args kwargs p) eqn:Esup; [discriminate|].
+    split; [exact Hp'|]. unfold supplied_b in Esup. fold rq in Esup. rewrite Er in Esup.
+    apply orb_false_iff in Esup. destruct Esup as [E1 E2]. simpl in E1. rewrite andb_true_r in E1.
+    split; [exact E1|].
+    destruct (str_in p (caller_req_kw kwargs)) eqn:Ec.
+    + exfalso. pose proof (Crk p Ec) as Hc. rewrite smem_sget, G, Er, Hp in Hc. discriminate.
+    + simpl in E2. rewrite andb_true_r in E2. exact E2.
+  - rewrite !kf_supdate. f_equal. rewrite Sh, Sh', !kf_fold_sdel, Hf. reflexivity.
+Qed.
+
+(* ---- Python's binding does not see the difference ---- *)
+Definition kwQ (sg : sig) (bound : list (string * value)) (kv : string * value) : bool :=
+  if sig_name sg (fst kv) then negb (smem (fst kv) bound) else s_varkw sg.
+
+Lemma smem_app_other : forall (bound : list (string * value)) k v k', k' <> k ->
+  smem k' (bound ++ [(k, v)]) = smem k' bound.
+Proof.
+  intros bound k v k' N. rewrite !smem_sget, sget_app, sget_cons, sget_nil.
+  destruct (String.eqb_spec k' k); [contradiction|]. destruct (sget k' bound); reflexivity.
+Qed.
+
+Lemma bind_kw_char : forall sg kws bound extra, NoDup (map fst kws) ->
+  bind_kw sg bound extra kws =
+  if forallb (kwQ sg bound) kws
+  then Some (bound ++ kf (sig_name sg) kws, extra ++ kf (fun p => negb (sig_name sg p)) kws)
+  else None.
+Proof.
+  intros sg kws. induction kws as [|[k v] r IH]; intros bound extra Hnd.
+  - simpl. rewrite !app_nil_r. reflexivity.
+  - simpl in Hnd. inversion Hnd as [|a l Hna Hnd']; subst.
+    rewrite bind_kw_cons. cbn [forallb]. unfold kwQ at 1. cbn [fst]. rewrite !kf_cons. fold (sig_name sg k).
+    destruct (sig_name sg k) eqn:Es.
+    + destruct (smem k bound); [reflexivity|]. cbn [negb andb].
+      rewrite IH by exact Hnd'.
+      rewrite (forallb_ext_in (kwQ sg (bound ++ [(k, v)])) (kwQ sg bound)).
+      * cbn [negb]. rewrite <- app_assoc. reflexivity.
+      * intros [k' v'] Hin. unfold kwQ. cbn [fst]. destruct (sig_name sg k'); [|reflexivity].
+        rewrite smem_app_other; [reflexivity|]. intros ->. apply Hna. apply (in_map fst) in Hin. exact Hin.
+    + destruct (s_varkw sg); [|reflexivity]. cbn [andb negb]. rewrite IH by exact Hnd'.
+      rewrite <- app_assoc. reflexivity.
+Qed.
+
+Lemma fill_defaults_ext : forall names dflt b b',
+  (forall n, In n names -> (match sget n b' with Some v => Some v | None => sget n dflt end) =
+                           (match sget n b with Some v => Some v | None => sget n dflt end)) ->
+  fill_defaults names dflt b' = fill_defaults names dflt b.
+Proof.
+  induction names as [|n r IH]; intros dflt b b' H; [reflexivity|].
+  rewrite !fill_defaults_cons, (H n (or_introl eq_refl)), (IH dflt b b'); [reflexivity|].
+  intros m Hm. apply H. right; exact Hm.
+Qed.
+
+Theorem py_bind_ext : forall sg na fk fk', NoDup (map fst fk) -> NoDup (map fst fk') ->
+  (forall p v, sget p fk = Some v -> sget p fk' = Some v) ->
+  (forall p v, sget p fk = None -> sget p fk' = Some v ->
+     sig_name sg p = true /\ str_in p (firstn (List.length na) (s_args sg)) = false /\
+     sget p (kwarg_defaults sg) = Some v) ->
+  kf (fun p => negb (sig_name sg p)) fk' = kf (fun p => negb (sig_name sg p)) fk ->
+  py_bind sg na fk' = py_bind sg na fk.
+Proof.
+  intros sg na fk fk' Hn Hn' F1 F2 F3. unfold py_bind.
+  pose proof (bind_pos_keys (s_args sg) na) as Hk.
+  destruct (bind_pos (s_args sg) na) as [bpos surplus]. cbn [fst] in Hk.
+  destruct (negb (s_varargs sg) && negb (match surplus with [] => true | _ => false end)); [reflexivity|].
+  rewrite !bind_kw_char by assumption.
+  assert (Hq : forallb (kwQ sg bpos) fk' = forallb (kwQ sg bpos) fk).
+  { destruct (forallb (kwQ sg bpos) fk) eqn:E1; destruct (forallb (kwQ sg bpos) fk') eqn:E2; try reflexivity; exfalso.
+    - assert (E : forallb (kwQ sg bpos) fk' = true); [|congruence].
+      rewrite forallb_forall in E1. apply forallb_forall. intros [k v] Hin.
+      destruct (sget k fk) as [w|] eqn:Eg.
+      + apply sget_some_in in Eg. exact (E1 _ Eg).
+      + pose proof (in_sget_nodup k fk' v Hn' Hin) as Eg'.
+        destruct (F2 k v Eg Eg') as [S1 [S2 _]]. unfold kwQ. cbn [fst]. rewrite S1, smem_str_in, Hk, S2. reflexivity.
+    - assert (E : forallb (kwQ sg bpos) fk = true); [|congruence].
+      rewrite forallb_forall in E2. apply forallb_forall. intros [k v] Hin.
+      pose proof (in_sget_nodup k fk v Hn Hin) as Eg. apply F1 in Eg. apply sget_some_in in Eg. exact (E2 _ Eg). }
+  rewrite Hq. destruct (forallb (kwQ sg bpos) fk); [|reflexivity].
+  rewrite F3.
+  rewrite (fill_defaults_ext _ _ (bpos ++ kf (sig_name sg) fk) (bpos ++ kf (sig_name sg) fk')); [reflexivity|].
+  intros n Hin. rewrite !sget_app. destruct (sget n bpos); [reflexivity|].
+  assert (Sn : sig_name sg n = true) by (apply sig_name_named; exact Hin).
+  rewrite !sget_kf, Sn.
+  destruct (sget n fk) as [w|] eqn:Eg; [rewrite (F1 n w Eg); reflexivity|].
+  destruct (sget n fk') as [v|] eqn:Eg'; [|reflexivity].
+  destruct (F2 n v Eg Eg') as [_ [_ Hd]]. rewrite Hd. reflexivity.
+Qed.
+
+(* ---- the replay theorem ---- *)
+Theorem C07_replay_one_call : forall c cfg cfg' scope args kwargs na fk,
+  get_bindings_for cfg' scope (c_sel c) true =
+    prep_operative c args kwargs (prep_bindings cfg scope c args kwargs) ->
+  merge_call c args kwargs (prep_bindings cfg scope c args kwargs) = Ok (na, fk) ->
+  exists fk',
+    merge_call c args kwargs (prep_bindings cfg' scope c args kwargs) = Ok (na, fk') /\
+    py_bind (c_sig c) na fk' = py_bind (c_sig c) na fk /\
+    (forall p v, sget p fk = Some v -> sget p fk' = Some v) /\
+    (forall p v, sget p fk = None -> sget p fk' = Some v ->
+       sget p (configurable_defaults c) = Some v /\ sget p (kwarg_defaults (c_sig c)) = Some v /\
+       str_in p (supplied_positional_names (c_sig c) args) = false /\ str_in p (map fst kwargs) = false).
+Proof.
+  intros c cfg cfg' scope args kwargs na fk Hd Hm.
+  destruct (replay_merge_call c args kwargs _ _ na fk (replay_bindings_extend c cfg cfg' scope args kwargs Hd) Hm)
+    as [fk' [Hm' [Hl [Hn [Hn' [F1 [F2 F3]]]]]]].
+  exists fk'. split; [exact Hm'|]. split; [|split; [exact F1|]].
+  - apply py_bind_ext; try assumption.
+    intros p v Hp Hp'. destruct (F2 p v Hp Hp') as [D1 [D2 _]].
+    destruct (configurable_default_is_default c p v D1) as [D3 D4].
+    split; [exact D4|]. split; [|exact D3]. rewrite Hl. exact D2.
+  - intros p v Hp Hp'. destruct (F2 p v Hp Hp') as [D1 [D2 D3]].
+    destruct (configurable_default_is_default c p v D1) as [D4 _]. auto.
+Qed.
+
+(* the whole remainder of the wrapper (binding, the call itself, singletons, ...) is the same *)
+Corollary C07_replay_call_tail : forall f c sel sstr cfg cfg' scope args kwargs na fk s,
+  get_bindings_for cfg' scope (c_sel c) true =
+    prep_operative c args kwargs (prep_bindings cfg scope c args kwargs) ->
+  merge_call c args kwargs (prep_bindings cfg scope c args kwargs) = Ok (na, fk) ->
+  call_tail f c sel sstr args kwargs s (Ok (prep_bindings cfg' scope c args kwargs)) =
+  call_tail f c sel sstr args kwargs s (Ok (prep_bindings cfg scope c args kwargs)).
+Proof.
+  intros f c sel sstr cfg cfg' scope args kwargs na fk s Hd Hm.
+  destruct (C07_replay_one_call c cfg cfg' scope args kwargs na fk Hd Hm) as [fk' [Hm' [Hb _]]].
+  unfold call_tail. rewrite Hm, Hm', Hb. reflexivity.
+Qed.
+
+(* the record reproduces itself: the replayed call records the same section *)
+Theorem C07_record_reproduces : forall c cfg cfg' scope args kwargs,
+  get_bindings_for cfg' scope (c_sel c) true =
+    prep_operative c args kwargs (prep_bindings cfg scope c args kwargs) ->
+  forall p, sget p (prep_operative c args kwargs (prep_bindings cfg' scope c args kwargs)) =
+            sget p (prep_operative c args kwargs (prep_bindings cfg scope c args kwargs)).
+Proof.
+  intros c cfg cfg' scope args kwargs Hd p.
+  destruct (replay_bindings_extend c cfg cfg' scope args kwargs Hd) as (Hn & Hn' & Hs & _).
+  rewrite !prep_operative_sget_supplied by assumption. rewrite Hs.
+  destruct (supplied_b c args kwargs p); [reflexivity|].
+  destruct (sget p (prep_bindings cfg scope c args kwargs)); [reflexivity|].
+  destruct (sget p (configurable_defaults c)); reflexivity.
+Qed.
+
+Corollary C07_record_reproduces_keys : forall c cfg cfg' scope args kwargs,
+  get_bindings_for cfg' scope (c_sel c) true =
+    prep_operative c args kwargs (prep_bindings cfg scope c args kwargs) ->
+  NoDup (map fst (prep_operative c args kwargs (prep_bindings cfg' scope c args kwargs))) /\
+  NoDup (map fst (prep_operative c args kwargs (prep_bindings cfg scope c args kwargs))) /\
+  forall p, In p (map fst (prep_operative c args kwargs (prep_bindings cfg' scope c args kwargs))) <->
+            In p (map fst (prep_operative c args kwargs (prep_bindings cfg scope c args kwargs))).
+Proof.
+  intros c cfg cfg' scope args kwargs Hd.
+  assert (Nd : forall nk, NoDup (map fst (prep_operative c args kwargs nk))).
+  { intro nk. unfold prep_operative. apply drop_names_nodup, drop_names_nodup, keys_supdate_nodup.
+    apply configurable_defaults_nodup. }
+  split; [apply Nd|]. split; [apply Nd|]. intro p.
+  pose proof (C07_record_reproduces c cfg cfg' scope args kwargs Hd p) as E.
+  split; intro H; apply in_keys_sget in H; destruct H as [v Hv].
+  - rewrite E in Hv. eapply sget_some_key; exact Hv.
+  - rewrite <- E in Hv. eapply sget_some_key; exact Hv.
+Qed.
+
+(* ---- a store that replays exists: the cleared store with exactly the recorded section bound ---- *)
+Lemma prefixes_last : forall {A} (l : list A), exists pre, prefixes l = pre ++ [l].
+Proof.
+  intros A l. induction l as [|x r [pre IH]].
+  - exists []. reflexivity.
+  - exists ([] :: map (cons x) pre). cbn [prefixes]. rewrite IH, map_app. reflexivity.
+Qed.
+
+Theorem C07_replay_store_exists : forall scope sel (d : pdict), NoDup (map fst d) ->
+  get_bindings_for [((scope_str scope, sel), d)] scope sel true = d.
+Proof.
+  intros scope sel d Hnd. rewrite gbf_inherit_eq.
+  set (D := dict_at [((scope_str scope, sel), d)] sel).
+  assert (HD : forall q, D q = [] \/ D q = d).
+  { intro q. unfold D, dict_at.
+    change (cget (scope_str q, sel) [((scope_str scope, sel), d)])
+      with (if ckey_eqb (scope_str q, sel) (scope_str scope, sel) then Some d else None).
+    destruct (ckey_eqb _ _); [right|left]; reflexivity. }
+  assert (HDs : D scope = d).
+  { unfold D, dict_at.
+    change (cget (scope_str scope, sel) [((scope_str scope, sel), d)])
+      with (if ckey_eqb (scope_str scope, sel) (scope_str scope, sel) then Some d else None).
+    destruct (ckey_eqb_spec (scope_str scope, sel) (scope_str scope, sel)); [reflexivity|congruence]. }
+  assert (Hdd : supdate d d = d).
+  { apply supdate_absorb. intros k v Hin. apply in_sget_nodup; assumption. }
+  assert (Hfold : forall l acc, (acc = [] \/ acc = d) ->
+            fold_left (fun acc q => supdate acc (D q)) l acc = [] \/ fold_left (fun acc q => supdate acc (D q)) l acc = d).
+  { induction l as [|q l IH]; intros acc Ha; [exact Ha|]. cbn [fold_left]. apply IH.
+    destruct Ha as [-> | ->]; destruct (HD q) as [-> | ->].
+    - left; reflexivity.
+    - right. apply supdate_nil_nodup. exact Hnd.
+    - right; reflexivity.
+    - right. exact Hdd. }
+  destruct (prefixes_last scope) as [pre ->]. rewrite fold_left_app. cbn [fold_left]. rewrite HDs.
+  destruct (Hfold pre [] (or_introl eq_refl)) as [-> | ->]; [apply supdate_nil_nodup; exact Hnd|exact Hdd].
+Qed.
+
+Lemma prep_operative_nodup : forall c args kwargs nk, NoDup (map fst (prep_operative c args kwargs nk)).
+Proof.
+  intros. unfold prep_operative. apply drop_names_nodup, drop_names_nodup, keys_supdate_nodup.
+  apply configurable_defaults_nodup.
+Qed.
+
+(* ... so the replay theorem is not vacuous: replay against the cleared store holding just what was recorded *)
+Corollary C07_replay_from_cleared_store : forall c cfg scope args kwargs na fk,
+  let d := prep_operative c args kwargs (prep_bindings cfg scope c args kwargs) in
+  let cfg' := [((scope_str scope, c_sel c), d)] in
+  merge_call c args kwargs (prep_bindings cfg scope c args kwargs) = Ok (na, fk) ->
+  exists fk', merge_call c args kwargs (prep_bindings cfg' scope c args kwargs) = Ok (na, fk') /\
+              py_bind (c_sig c) na fk' = py_bind (c_sig c) na fk.
+Proof.
+  intros c cfg scope args kwargs na fk d cfg' Hm.
+  destruct (C07_replay_one_call c cfg cfg' scope args kwargs na fk) as [fk' [H1 [H2 _]]].
+  - unfold cfg'. apply C07_replay_store_exists. apply prep_operative_nodup.
+  - exact Hm.
+  - exists fk'. split; assumption.
+Qed.
+
+(* ---- machine level, for a probe: the replayed call logs the same environment ---- *)
+Lemma call_tail_probe : forall f c sel sstr args kwargs s nk na fk env, c_kind c = KProbe ->
+  merge_call c args kwargs nk = Ok (na, fk) -> py_bind (c_sig c) na fk = Some env ->
+  call_tail f c sel sstr args kwargs s (Ok nk) =
+  (log_call {| cr_sel := sel; cr_scope := current_scope s; cr_env := env; cr_n := counter s |} s, Ok (VRet sel (counter s))).
+Proof. intros f c sel sstr args kwargs s nk na fk env Hk Hm Hb. unfold call_tail. rewrite Hm, Hb, Hk. reflexivity. Qed.
+
+Theorem C07_replay_probe_call : forall f s1 s2 sel args kwargs c s1' v1,
+  lookup_sel s1 sel = Some c -> lookup_sel s2 sel = Some c -> c_kind c = KProbe ->
+  current_scope s2 = current_scope s1 ->
+  existsb is_req (skipn (List.length (supplied_positional_names (c_sig c) args)) args) = false ->
+  (forall k v, In (k, v) (prep_bindings (config s1) (current_scope s1) c args kwargs) -> ref_free_at f v = true) ->
+  (forall k v, In (k, v) (prep_bindings (config s2) (current_scope s1) c args kwargs) -> ref_free_at f v = true) ->
+  get_bindings_for (config s2) (current_scope s1) (c_sel c) true =
+    prep_operative c args kwargs (prep_bindings (config s1) (current_scope s1) c args kwargs) ->
+  call (S f) s1 sel args kwargs = (s1', Ok v1) ->
+  exists env s2',
+    v1 = VRet sel (counter s1) /\
+    calllog s1' = {| cr_sel := sel; cr_scope := current_scope s1; cr_env := env; cr_n := counter s1 |} :: calllog s1 /\
+    call (S f) s2 sel args kwargs = (s2', Ok (VRet sel (counter s2))) /\
+    calllog s2' = {| cr_sel := sel; cr_scope := current_scope s1; cr_env := env; cr_n := counter s2 |} :: calllog s2.
+Proof.
+  intros f s1 s2 sel args kwargs c s1' v1 L1 L2 Hk Hsc Hreq R1 R2 Hd H.
+  rewrite (call_ref_free_unfold f s1 sel args kwargs c L1 Hreq R1) in H.
+  destruct (merge_call c args kwargs (prep_bindings (config s1) (current_scope s1) c args kwargs)) as [[na fk]|e] eqn:Hm.
+  2:{ unfold call_tail in H. rewrite Hm in H. discriminate. }
+  destruct (py_bind (c_sig c) na fk) as [env|] eqn:Hb.
+  2:{ unfold call_tail in H. rewrite Hm, Hb in H. discriminate. }
+  rewrite (call_tail_probe _ _ _ _ _ _ _ _ _ _ _ Hk Hm Hb) in H. inversion H; subst s1' v1. clear H.
+  exists env. eexists. split; [reflexivity|]. split; [reflexivity|].
+  destruct (C07_replay_one_call c (config s1) (config s2) (current_scope s1) args kwargs na fk Hd Hm)
+    as [fk' [Hm' [Hb' _]]].
+  rewrite call_ref_free_unfold with (c := c); try assumption.
+  - rewrite Hsc. rewrite (call_tail_probe _ _ _ _ _ _ _ _ _ _ _ Hk Hm' (eq_trans Hb' Hb)).
+    split; [reflexivity|]. simpl. unfold current_scope. simpl. fold (current_scope s2). rewrite Hsc. reflexivity.
+  - rewrite Hsc. exact R2.
+Qed.
+
+(* ---- what is NOT true ---- *)
+(* (1) a call that FAILED for a missing REQUIRED binding still records the signature default of that parameter,
+       so replaying its record succeeds: the replay theorem needs the original merge_call to have succeeded *)
+Example replay_of_failed_call_can_succeed :
+  let sg := {| s_args := ["a"]; s_defaults := [VInt 1]; s_varargs := false; s_kwonly := []; s_varkw := false |} in
+  let c := {| c_sel := "m.f"; c_kind := KProbe; c_sig := sg; c_allow := []; c_deny := []; c_method := false |} in
+  let d := prep_operative c [VReq] [] (prep_bindings [] [] c [VReq] []) in
+  let cfg' := [(("", "m.f"), d)] in
+  merge_call c [VReq] [] (prep_bindings [] [] c [VReq] []) = Raise "RuntimeError:a" /\
+  d = [("a", VInt 1)] /\
+  get_bindings_for cfg' [] "m.f" true = d /\
+  merge_call c [VReq] [] (prep_bindings cfg' [] c [VReq] []) = Ok ([VInt 1], []).
+Proof. vm_compute. repeat split; reflexivity. Qed.
+
+(* (2) no representability hypothesis on the BOUND values is needed in this model: prep_operative records the
+       applicable bindings unfiltered (only signature DEFAULTS are filtered by representability); an
+       unrepresentable bound object is in the record and is replayed *)
+Example unrepresentable_binding_is_recorded :
+  let sg := {| s_args := ["a"]; s_defaults := []; s_varargs := false; s_kwonly := []; s_varkw := false |} in
+  let c := {| c_sel := "m.f"; c_kind := KProbe; c_sig := sg; c_allow := []; c_deny := []; c_method := false |} in
+  let cfg := [(("", "m.f"), [("a", VObj "o")])] in
+  representable (VObj "o") = false /\
+  prep_operative c [] [] (prep_bindings cfg [] c [] []) = [("a", VObj "o")].
+Proof. vm_compute. split; reflexivity. Qed.
+
+(* (3) the replayed keyword dict is in general LARGER than the original one (the recorded defaults are passed
+       explicitly), so final_kwargs are not equal; only the environment built by Python's binding is *)
+Example replay_final_kwargs_differ :
+  let sg := {| s_args := ["a"; "b"]; s_defaults := [VInt 7]; s_varargs := false; s_kwonly := []; s_varkw := false |} in
+  let c := {| c_sel := "m.f"; c_kind := KProbe; c_sig := sg; c_allow := []; c_deny := []; c_method := false |} in
+  let cfg := [(("", "m.f"), [("a", VInt 1)])] in
+  let d := prep_operative c [] [] (prep_bindings cfg [] c [] []) in
+  let cfg' := [(("", "m.f"), d)] in
+  merge_call c [] [] (prep_bindings cfg [] c [] []) = Ok ([], [("a", VInt 1)]) /\
+  merge_call c [] [] (prep_bindings cfg' [] c [] []) = Ok ([], [("b", VInt 7); ("a", VInt 1)]) /\
+  py_bind sg [] [("a", VInt 1)] = Some [("a", VInt 1); ("b", VInt 7)] /\
+  py_bind sg [] [("b", VInt 7); ("a", VInt 1)] = Some [("a", VInt 1); ("b", VInt 7)].
+Proof. vm_compute. repeat split; reflexivity. Qed.
+
+Print Assumptions eval_ref_free_at.
+Print Assumptions eval_ref_free.
+Print Assumptions C07_call_operative_exact.
+Print Assumptions C07_call_operative_exact_section.
+Print Assumptions C07_changed_section_was_entered.
+Print Assumptions C07_unentered_section_untouched.
+Print Assumptions C07_entered_section_exists.
+Print Assumptions C07_changed_section_was_entered_eval.
+Print Assumptions C07_entered_section_exists_eval.
+Print Assumptions C07_changed_section_was_entered_handle.
+Print Assumptions C07_entered_section_exists_handle.
+Print Assumptions call_keys_ref_free.
+Print Assumptions call_keys_example.
+Print Assumptions C07_replay_one_call.
+Print Assumptions C07_replay_call_tail.
+Print Assumptions C07_record_reproduces.
+Print Assumptions C07_record_reproduces_keys.
+Print Assumptions C07_replay_store_exists.
+Print Assumptions C07_replay_from_cleared_store.
+Print Assumptions C07_replay_probe_call.
+Print Assumptions replay_of_failed_call_can_succeed.
+Print Assumptions unrepresentable_binding_is_recorded.
+Print Assumptions replay_final_kwargs_differ.
